@@ -21,7 +21,7 @@ CHECKS = {
             "content carries unique text and binary markers; after quiescence the checker requires exactly one delivery per "
             "intended recipient with identical protobuf content, sender and group identity, none elsewhere, no delivery without "
             "a sent message, the recipient's delivery receipt at the sender, re-acknowledged duplicates, a retry receipt after "
-            "corruption, and no marker in any frame that left a client. 420 runs quick / 25 000 thorough; schedules sampled.",
+            "corruption, and no marker in any frame that left a client. 420 runs quick / 25 000 thorough; schedules sampled. A plaintext frame is attributed to the known recipient-without-keys mechanism by what the server double observed (its directory had no keys for the recipient when the sender asked), not by the scenario.",
             "Trusted: the server double (our reading of the server's routing), python-axolotl (padding shim). Framed wiring without noise/segments (C04/C11 cover those).",
             "DESIGN.md 4/C03"),
     "C01": ("exploration",
@@ -84,7 +84,7 @@ CHECKS = {
             "save(dest=), config_to_str+file and YowProfile.write_config, loaded by path with/without extension and by profile "
             "name, profile directory existing or not. Crash points: every Python line of the save path, the file open, every "
             "7-byte chunk reaching the OS, close and rename are enumerated completely for each sampled save; a forked child is "
-            "killed there and the parent requires load() to return the previous or the new configuration.",
+            "killed there and the parent requires load() to return the previous or the new configuration. The previous configuration is either config.json or a key=value config.yo in the profile directory.",
             "Trusted: os.rename atomicity and the filesystem; process death only (no power loss). Saves to enumerate are sampled, their crash points are complete.",
             "DESIGN.md 4/C19"),
     "C13": ("fault_enumeration",
@@ -95,7 +95,7 @@ CHECKS = {
             "before/after each DML statement, before/after each commit, every Python line in store/sqlite/*.py - is a crash point: "
             "a forked child is killed there, the parent reopens the file and requires every record to be its old or its new "
             "value, never missing; plus two-party conversations continued across restarts of either side. Crash points are "
-            "complete per operation instance; states and sequences are sampled.",
+            "complete per operation instance; states and sequences are sampled. Manager level: level_prekeys / generate_signed_prekey / set_prekeys_as_sent through AxolotlManager with batch sizes 1..205; after every returned call the database files are copied as a kill would leave them and the copy must show what the live store shows.",
             "Trusted: SQLite's atomic commit, the filesystem, python-axolotl (with the block-aligned padding shim). Process death only.",
             "DESIGN.md 4/C13"),
     "C10": ("exploration",
@@ -117,7 +117,7 @@ CHECKS = {
             "plain, cut-off-then-retry, cut-inside-reply-then-retry, reconnect-after-transport, corrupted reply (must surface "
             "as <failure> + event, not hang). The responder checks the presented account/passive/push name/user agent and "
             "decrypts client frames strictly in counter order; server frames glued to the reply and random traffic both ways "
-            "must arrive intact and in order; the stored profile must hold a changed server key. Interleavings are sampled.",
+            "must arrive intact and in order; the stored profile must hold a changed server key. Interleavings are sampled. A completion-race sweep holds the handshake worker inside its last write and releases it at line event k (every k) of the network thread's delivery of the first transport frames; frames sent around completion must be up before anything else is sent (a stranded frame with all threads idle is a violation).",
             "Trusted: dissononce/consonance (with the randint shim), the responder double. Hang = stable blocked state, a bare timeout is inconclusive.",
             "DESIGN.md 4/C04"),
     "C11": ("exploration",
@@ -144,7 +144,7 @@ CHECKS = {
             "every event the model is compared with load_unsent_prekeys, the stored keys and the uploads seen by the server: "
             "pending == stored minus confirmed, confirmed keys never re-offered, every offered (id, key) is in the store until a "
             "delivered first message consumed it and gone afterwards, a replay delivers nothing, identity/registration id match "
-            "the account and the signed prekey verifies under the identity (Curve.verifySignature).",
+            "the account and the signed prekey verifies under the identity (Curve.verifySignature). Overlapping uploads: the server asks again while earlier uploads are unanswered; results arrive in order, reversed, or the last one is lost.",
             "Trusted: the server double (stores keys on processing the request), python-axolotl. Histories sampled.",
             "DESIGN.md 4/C14"),
     "C17": ("exploration",
@@ -154,7 +154,7 @@ CHECKS = {
             "After every event the harness asks the observer's store which of the contact's identities it trusts: once the two "
             "have exchanged a message a pin must exist; without automatic trust it must stay the first identity, no message from "
             "or for the new identity may be delivered; with automatic trust the pin moves forward only and the last message of "
-            "each direction after the change must arrive. Mutants (trust check always true, default on) are caught.",
+            "each direction after the change must arrive. Mutants (trust check always true, default on) are caught. Histories include first messages that stay undecryptable on every retransmission (identity presented, no session), the server double giving up after three.",
             "Trusted: the server double (drops the old installation's keys on re-registration). Histories sampled.",
             "DESIGN.md 4/C17"),
     "C12": ("fault_enumeration",
@@ -194,7 +194,7 @@ CHECKS = {
             "without a fixture are converted to their entity and back (300 draws per class quick, 6 000 thorough) and compared "
             "with a strict comparator (numbers by value; protobuf payloads field-wise). 34 application/library-sendable entity "
             "constructors with generated arguments plus generated message entities are serialised and pushed through the "
-            "library encoder, the library decoder and the independent reference decoder.",
+            "library encoder, the library decoder and the independent reference decoder. Optional fields: for every receive-side class (a layer or a receive-side entity parses with it) each field is unset / an unset field is set, and when the class's own serialiser answers with pure deletions/additions that stanza must make the same round trip (an absent attribute written back as its default is accepted).",
             "Trusted: vf/catalogue.py (our transcription of the documented shapes), vf/refcodec.py. Enumeration-valued attributes keep the documented literal.",
             "DESIGN.md 4/C09"),
     "C06": ("exploration",
@@ -205,7 +205,7 @@ CHECKS = {
             "presence, chat state, picture/status/contact/group notifications, calls, ib, success/failure/stream error/features) "
             "are injected at the bottom with generated values (25 draws per cell quick, 500 thorough). Exactly one stanza equal "
             "to the entity's serialisation / one entity of the documented class re-serialising to the stanza is required when "
-            "the owning module is selected, nothing and no exception otherwise. The kind x selection x wiring matrix is complete; values are sampled.",
+            "the owning module is selected, nothing and no exception otherwise. The kind x selection x wiring matrix is complete; values are sampled. All cases of one stack run interleaved in a seeded random order; a reach monitor requires an outgoing kind for every (layer, tag) send handler found in the assembled stack.",
             "Trusted: the ownership rule (package defining the entity class) and vf/catalogue.py. iq replies are C08's, encrypted stanzas C03's.",
             "DESIGN.md 4/C06"),
     "C07": ("exploration",
